@@ -10,7 +10,7 @@ WARM = []
 RULE = (
     "Cases: on-the-hour hourly frames of 4 days to 2 years (sizes weighted small) built on the local wall clock of 12 zones "
     "(incl. :30/:45 offsets and zones whose DST change is at local midnight), start/end at any hour (also on a DST day), NaN "
-    "cells and blocks, absent rows, duplicated rows with different values (also duplicates whose first occurrence is empty), "
+    "cells and blocks, absent rows, duplicated rows with different values (also duplicates whose first occurrence is empty; a stretch of hours delivered again and appended after the original rows, so that the frame is not in time order), negative night-time irradiance, "
     "zeros, with/without ghi, electric/gas, HourlyBaselineData and HourlyReportingData, timestamps as the index or in a tz-aware "
     "`datetime` column. Oracle: data.df.index is every real hour "
     "from 00:00 of the first supplied local day to 23:00 of the last (UTC arithmetic), unique and increasing; every supplied "
@@ -64,6 +64,11 @@ def cases(draw):
     # timestamps as the index, or in a tz-aware `datetime` column (the other documented way in)
     c["entry"] = draw(st.sampled_from(["index", "index", "datetime_column"]))
     c["dtype"] = draw(st.sampled_from(["float64", "float64", "float64", "float32"]))  # parquet files deliver float32
+    # pyranometers read a little below zero at night: negative irradiance is a supplied value like any other
+    c["ghi_night_offset"] = draw(st.booleans())
+    # a stretch of hours delivered a second time with other values, appended after the original rows (the frame is then not in time
+    # order); the first delivery counts
+    c["redelivered"] = draw(st.one_of(st.none(), st.none(), st.tuples(st.integers(0, nh - 1), st.integers(5, 300))))
     return c
 
 
@@ -89,6 +94,9 @@ def build(c):
     cols = {"temperature": 50 + 20 * rng.random(nh), "observed": 1 + rng.random(nh)}
     if c["ghi"]:
         cols["ghi"] = 100 * rng.random(nh)
+        if c.get("ghi_night_offset"):
+            night = (idx.hour.values < 6) | (idx.hour.values > 19)
+            cols["ghi"] = np.where(night, -0.5 - 2.5 * rng.random(nh), cols["ghi"])
     df = pd.DataFrame(cols, index=idx)
     names = list(cols)
     for i, j in c["nan_cells"]:
@@ -124,6 +132,13 @@ def build(c):
                         first["ghi"] = np.nan
                 parts.insert(0, first)
         df = pd.concat(parts).sort_index(kind="stable")
+    if c.get("redelivered"):
+        a, ln = c["redelivered"]
+        first_rows = df[~df.index.duplicated(keep="first")]
+        again = first_rows.iloc[a % len(first_rows): a % len(first_rows) + ln].copy()
+        again["observed"] = 555.0 + np.arange(len(again))
+        again["temperature"] = -7.0
+        df = pd.concat([df, again])  # not sorted: the second delivery sits at the end of the frame
     if c.get("dtype") == "float32":
         df = df.astype("float32")
     return df
@@ -206,8 +221,9 @@ def judge(c, rec):
         if o[col].isna().any() and len(sup) > 0:
             rec.violation("nan-left/" + col, c, "%d NaN left in %s although %d values were supplied" % (int(o[col].isna().sum()), col, len(sup)))
         filled_any = filled_any or bool(expflag.any())
-    holes = bool(c["dups"]) or len(exp) > len(src)
-    rec.case(c, bool(filled_any and holes), tags + ["dups=%d" % bool(c["dups"]), "elec=%d" % c["elec"], "ghi=%d" % c["ghi"]])
+    holes = bool(c["dups"]) or bool(c.get("redelivered")) or len(exp) > len(src)
+    rec.case(c, bool(filled_any and holes), tags + ["dups=%d" % bool(c["dups"]), "elec=%d" % c["elec"], "ghi=%d" % c["ghi"],
+                                                     "redelivered-block=%d" % bool(c.get("redelivered")), "negative-night-ghi=%d" % bool(c["ghi"] and c.get("ghi_night_offset"))])
 
 
 def shards(tier, seed):
